@@ -22,6 +22,9 @@ pub struct Inst {
     /// non-empty they replace `k`/`p_with_k` (families whose cost grows too fast in either).
     pub pk_quick: Vec<(u32, u32)>,
     pub pk_thorough: Vec<(u32, u32)>,
+    /// An additional exploration of the first plan under model M3L with this many stale reads
+    /// (families whose regular plans have none, but where one stale read is the whole point).
+    pub m3l_stale: Option<u32>,
     /// Preemption bound to use together with k (None = the tier's default).
     pub p_with_k: Option<u32>,
     /// Too large for the quick tier at the bound where it is useful.
